@@ -546,6 +546,113 @@ func (e *env) blockBinding(cs consensus.State, orig types.Block, bs consensus.V1
 	}
 }
 
+// derivedVsCreated: the ID-derivation helpers of the transaction and block types must name exactly the elements the
+// block creates (an ID helper that names another element is a derived ID coinciding with a different position).
+func (e *env) derivedVsCreated(ev chaingen.ApplyEvent) {
+	blk := ev.Block
+	bid := blk.ID()
+	expSC := map[types.SiacoinOutputID]string{}
+	must := map[types.SiacoinOutputID]string{} // helper IDs that are certainly created by this block
+	for i := range blk.MinerPayouts {
+		expSC[bid.MinerOutputID(i)] = "miner-output"
+		must[bid.MinerOutputID(i)] = "Block.ID().MinerOutputID"
+	}
+	expSC[bid.FoundationOutputID()] = "foundation-output"
+	expSF := map[types.SiafundOutputID]bool{}
+	expFC := map[types.FileContractID]bool{}
+	for ti := range blk.Transactions {
+		t := &blk.Transactions[ti]
+		for i := range t.SiacoinOutputs {
+			expSC[t.SiacoinOutputID(i)] = "v1-output"
+			must[t.SiacoinOutputID(i)] = "Transaction.SiacoinOutputID"
+		}
+		for i := range t.SiafundInputs {
+			expSC[t.SiafundClaimOutputID(i)] = "v1-claim"
+			must[t.SiafundClaimOutputID(i)] = "Transaction.SiafundClaimOutputID"
+		}
+		for i := range t.SiafundOutputs {
+			expSF[t.SiafundOutputID(i)] = true
+		}
+		for i := range t.FileContracts {
+			expFC[t.FileContractID(i)] = true
+		}
+	}
+	for ti := range blk.V2Transactions() {
+		t := &blk.V2.Transactions[ti]
+		id := t.ID()
+		for i := range t.SiacoinOutputs {
+			expSC[t.SiacoinOutputID(id, i)] = "v2-output"
+			must[t.SiacoinOutputID(id, i)] = "V2Transaction.SiacoinOutputID"
+		}
+		for i := range t.SiafundInputs {
+			cid := t.SiafundInputs[i].Parent.ID.V2ClaimOutputID()
+			expSC[cid] = "v2-claim"
+			must[cid] = "SiafundOutputID.V2ClaimOutputID"
+		}
+		for i := range t.SiafundOutputs {
+			expSF[t.SiafundOutputID(id, i)] = true
+		}
+		for i := range t.FileContracts {
+			expFC[t.V2FileContractID(id, i)] = true
+		}
+		for _, r := range t.FileContractResolutions {
+			expSC[r.Parent.ID.V2RenterOutputID()] = "v2-resolution"
+			expSC[r.Parent.ID.V2HostOutputID()] = "v2-resolution"
+			must[r.Parent.ID.V2RenterOutputID()] = "FileContractID.V2RenterOutputID"
+			must[r.Parent.ID.V2HostOutputID()] = "FileContractID.V2HostOutputID"
+			if _, ok := r.Resolution.(*types.V2FileContractRenewal); ok {
+				expFC[r.Parent.ID.V2RenewalID()] = true
+			}
+		}
+	}
+	// resolved v1 contracts pay valid / missed outputs
+	for _, d := range ev.AU.FileContractElementDiffs() {
+		if d.Resolved {
+			fc := d.FileContractElement.FileContract
+			if d.Revision != nil {
+				fc = *d.Revision
+			}
+			for k := range fc.ValidProofOutputs {
+				expSC[d.FileContractElement.ID.ValidOutputID(k)] = "v1-valid"
+			}
+			for k := range fc.MissedProofOutputs {
+				expSC[d.FileContractElement.ID.MissedOutputID(k)] = "v1-missed"
+			}
+		}
+	}
+	created := map[types.SiacoinOutputID]bool{}
+	for _, d := range ev.AU.SiacoinElementDiffs() {
+		if d.Created {
+			created[d.SiacoinElement.ID] = true
+			e.b.Eval(1)
+			if _, ok := expSC[d.SiacoinElement.ID]; !ok {
+				e.b.Violate("C12/derived-id/created-siacoin-element-not-named-by-any-helper", fmt.Sprintf("block at height %d creates siacoin element %v that no ID helper of the block's transactions names", ev.Next.Index.Height, d.SiacoinElement.ID), map[string]any{"height": ev.Next.Index.Height, "kinds": ev.Kinds})
+			}
+		}
+	}
+	for id, helper := range must {
+		if !created[id] {
+			e.b.Violate("C12/derived-id/helper-names-an-element-the-block-does-not-create/"+helper, fmt.Sprintf("%s gives %v, but applying the block at height %d creates no siacoin element with that ID", helper, id, ev.Next.Index.Height), map[string]any{"height": ev.Next.Index.Height, "helper": helper, "kinds": ev.Kinds})
+		}
+	}
+	for _, d := range ev.AU.SiafundElementDiffs() {
+		if d.Created && !expSF[d.SiafundElement.ID] {
+			e.b.Violate("C12/derived-id/created-siafund-element-not-named-by-any-helper", fmt.Sprintf("siafund element %v", d.SiafundElement.ID), map[string]any{"height": ev.Next.Index.Height})
+		}
+	}
+	for _, d := range ev.AU.FileContractElementDiffs() {
+		if d.Created && !expFC[d.FileContractElement.ID] {
+			e.b.Violate("C12/derived-id/created-contract-not-named-by-any-helper", fmt.Sprintf("contract %v", d.FileContractElement.ID), map[string]any{"height": ev.Next.Index.Height})
+		}
+	}
+	for _, d := range ev.AU.V2FileContractElementDiffs() {
+		if d.Created && !expFC[d.V2FileContractElement.ID] {
+			e.b.Violate("C12/derived-id/created-v2-contract-not-named-by-any-helper", fmt.Sprintf("contract %v", d.V2FileContractElement.ID), map[string]any{"height": ev.Next.Index.Height})
+		}
+	}
+	e.b.Count("derived_id_helper_sets_compared_with_created_elements", 1)
+}
+
 func encState(s consensus.State) []byte {
 	var buf bytes.Buffer
 	e := types.NewEncoder(&buf)
@@ -575,6 +682,7 @@ func run(b *harness.B) {
 			e.framing(cs, orig)
 			e.blockBinding(cs, orig, bs)
 		}
+		c.OnStoreApplied = func(ev chaingen.ApplyEvent) { e.derivedVsCreated(ev) }
 		for done := 0; done < blocks; {
 			done += c.Grow(1+rng.IntN(10), chaingen.Plan{MaxTxns: 6})
 			if c.Height() > 2 && rng.IntN(8) == 0 {
